@@ -203,6 +203,8 @@ type scriptedServer struct {
 	closed bool
 	// push: channel to inject post-session traffic on the current connection
 	accepted int
+	// connections that went through STARTTLS: raw connection -> TLS layer (push writes through it)
+	secured map[net.Conn]*tls.Conn
 }
 
 type genericNode struct {
@@ -538,6 +540,10 @@ func (s *scriptedServer) serve(conn net.Conn, sc connScript, lg *connLog) {
 				tc.SetDeadline(time.Time{})
 				s.mu.Lock()
 				lg.TLS = "ok"
+				if s.secured == nil {
+					s.secured = map[net.Conn]*tls.Conn{}
+				}
+				s.secured[conn] = tc
 				s.mu.Unlock()
 				cur = tc
 				secure = true
@@ -556,7 +562,13 @@ func (s *scriptedServer) push(idx int, data string) error {
 		return fmt.Errorf("no connection %d", idx)
 	}
 	c := s.active[idx]
+	tc := s.secured[c]
 	s.mu.Unlock()
+	if tc != nil {
+		// the connection has been upgraded: unsolicited traffic goes through the TLS layer too
+		_, err := tc.Write([]byte(data))
+		return err
+	}
 	_, err := c.Write([]byte(data))
 	return err
 }
